@@ -214,4 +214,22 @@ theorem already_there (v : Variant) (hasLogger : Bool) (cbs : List Nat) (target 
     · rw [ruLoop]; simp [h]
     all_goals (cases hasLogger <;> rfl)
 
+/-! ### non-vacuity: a concrete run, evaluated by the kernel -/
+
+deriving instance Inhabited for Cpu.AMode
+deriving instance Inhabited for Cpu.Regs
+
+/-- `NOP; NOP; NOP` at $00:8000 (8-bit native mode), target $00:8002, budget 100 cycles, Logger attached, a callback at $8001 -/
+def nopState : St :=
+  { r := { (default : Regs) with PC := 0x8000, M := true, X := true, E := false },
+    m := { f := fun _ => 0xEA, wlog := [] } }
+
+/-- two instructions run (2 cycles each), the callback fires once, three Logger writes (one per iteration incl. the
+iteration that finds the target), the call returns true at the target -/
+theorem nop_run :
+    (match runUntil .primary true [0x8001] 0x8002 100 nopState with
+     | .done r b => some (b, r.cycles, r.logs, r.onpc, r.execd.length, pc24 r.s.r)
+     | _ => none) = some (true, 4, 3, [0x8001], 2, 0x8002) := by
+  decide +kernel
+
 end C12
